@@ -15,6 +15,8 @@ var soupLexemes = []string{
 	"(", ")", "{", "}", "[", "]", "::", ";", ":", ",", ".", "..", "...",
 	"0", "12", "3.5", ".5", "1e5", "1E-3", "0x1F", "0XaBp+2", "0x.8", "1..2", "0x", "3e", "7ll", "9ULL", "0x1Fll", "1e999", "5.", "08",
 	"\"a\"", "'b c'", "\"e\\n\"", "\"q\\\"q\"", "'\\65\\x41'", "\"\\z  \n  k\"", "\"\\u{48}\"", "\"中\"", "\"é\"", "\"😀\"", "\"tab\\t\"", "\"\\\n\"", "\"\\\xe4x\"", "'\\\xc3\xa9'", "\"\\\xff\"", "\"\\中\"", // a backslash in front of a byte above 0x7F
+	// sequences the server's lenient isUtf8 accepts but a strict decoder does not (overlong, surrogate, above U+10FFFF, truncated)
+	"\"\xf0\x80\x9f\xb8\"", "\xf0\x80\x9f\xb8", "\"\xe0\x80\x80x\"", "'\xed\xa0\x80'", "\"\xf4\x90\x80\x80\"", "\xe4\xb8", "\"\xf0\x9f\x98\"",
 	"[[long]]", "[==[a]]b]==]", "[[\nfirst]]", "[[l1\nl2]]", "[=[", "[=", "\"unfinished", "'x\n",
 	"--c", "-- comment é", "--[[lc]]", "--[==[ m\nn ]==]", "--[[ unterminated", "--[=x",
 	"@", "$", "中文", "é", "`", "\\", "?",
